@@ -348,6 +348,14 @@ def _derived_functional(o):
         return odl.solvers.SeparableSum(f, g)
     if k == 'quadform':
         return odl.solvers.QuadraticForm(_leaf('A', info.space), el(info.space, 1), 0.5)
+    if k == 'rightscal2':
+        return (f * 2.0) * 0.25
+    if k == 'rightscal_div':
+        return (f * 2.0) / 4.0
+    if k == 'leftright':
+        return 3.0 * (f * 0.5)
+    if k == 'translated2':
+        return f.translated(el(info.space, 1)).translated(el(info.space, 2))
     raise KeyError(k)
 
 
@@ -543,15 +551,21 @@ SPECS = [
                                                    else o['i'])),
     OSpec('BroadcastOperator', [dict(ops=['I', 'M']), dict(ops=['A', 'S2', 'M']), dict(ops=['P2', 'sin']),
                                 dict(ops=['Ac', 'M'], space='cn2'), dict(ops=['I', 'M'], space='ud2'),
-                                dict(ops=['Aff', 'M'])],
-          lambda o: odl.BroadcastOperator(*[_leaf(n, _sp(o.get('space', 'rn2'))) for n in o['ops']])),
+                                dict(ops=['Aff', 'M']), dict(ops=['P2', 2]), dict(ops=['sin', 3])],
+          lambda o: (odl.BroadcastOperator(_leaf(o['ops'][0], _sp(o.get('space', 'rn2'))), o['ops'][1])
+                     if isinstance(o['ops'][1], int) else
+                     odl.BroadcastOperator(*[_leaf(n, _sp(o.get('space', 'rn2'))) for n in o['ops']]))),
     OSpec('ReductionOperator', [dict(ops=['I', 'M']), dict(ops=['A', 'S2', 'M']), dict(ops=['P2', 'sin']),
                                 dict(ops=['Ac', 'M'], space='cn2'), dict(ops=['I', 'M'], space='ud2'),
-                                dict(ops=['Aff', 'M'])],
-          lambda o: odl.ReductionOperator(*[_leaf(n, _sp(o.get('space', 'rn2'))) for n in o['ops']])),
+                                dict(ops=['Aff', 'M']), dict(ops=['P2', 2]), dict(ops=['sin', 3]),
+                                dict(ops=['P3', 2], space='ud2')],
+          lambda o: (odl.ReductionOperator(_leaf(o['ops'][0], _sp(o.get('space', 'rn2'))), o['ops'][1])
+                     if isinstance(o['ops'][1], int) else
+                     odl.ReductionOperator(*[_leaf(n, _sp(o.get('space', 'rn2'))) for n in o['ops']]))),
     OSpec('DiagonalOperator', [dict(ops=['I', 'M']), dict(ops=['A', 'S2', 'M']), dict(ops=['P2', 'sin']),
                                dict(ops=['Ac', 'M'], space='cn2'), dict(ops=['A', 2]),
-                               dict(ops=['I', 'M'], space='ud2'), dict(ops=['Aff', 'exp'])],
+                               dict(ops=['I', 'M'], space='ud2'), dict(ops=['Aff', 'exp']),
+                               dict(ops=['P2', 2]), dict(ops=['sin', 3])],
           lambda o: (odl.DiagonalOperator(_leaf(o['ops'][0], _sp(o.get('space', 'rn2'))), o['ops'][1])
                      if isinstance(o['ops'][1], int) else
                      odl.DiagonalOperator(*[_leaf(n, _sp(o.get('space', 'rn2'))) for n in o['ops']]))),
@@ -677,7 +691,7 @@ for _s in _FR.SPECS:
                        dk='pos' if _s.posdom else 'any', cls=_s.name))
 for _k in ['translated', 'leftscal', 'rightscal', 'quadpert', 'scalarsum', 'bregman', 'rightvec',
            'sum', 'comp', 'product', 'quotient', 'defaultconj', 'infconv', 'moreau', 'sepsum',
-           'quadform']:
+           'quadform', 'rightscal2', 'rightscal_div', 'leftright', 'translated2']:
     SPECS.append(OSpec('functional-derived.' + _k,
                        [dict(name=b, space=s, k=_k) for b in ('L2NormSquared', 'L1Norm', 'Huber')
                         for s in ('rn3', 'ud3')], _derived_functional,
@@ -690,7 +704,11 @@ for _k in ['translated', 'leftscal', 'rightscal', 'quadpert', 'scalarsum', 'breg
                             'quotient': 'FunctionalQuotient',
                             'defaultconj': 'FunctionalDefaultConvexConjugate',
                             'infconv': 'InfimalConvolution', 'moreau': 'MoreauEnvelope',
-                            'sepsum': 'SeparableSum', 'quadform': 'QuadraticForm'}[_k]))
+                            'sepsum': 'SeparableSum', 'quadform': 'QuadraticForm',
+                            'rightscal2': 'FunctionalRightScalarMult',
+                            'rightscal_div': 'FunctionalRightScalarMult',
+                            'leftright': 'FunctionalLeftScalarMult',
+                            'translated2': 'FunctionalTranslation'}[_k]))
 SPECS.append(OSpec('ScalingFunctional', [dict(a=2.0), dict(a=-0.5)],
                    lambda o: odl.solvers.ScalingFunctional(R, o['a'])))
 SPECS.append(OSpec('IdentityFunctional', [dict()], lambda o: odl.solvers.IdentityFunctional(R)))
